@@ -28,6 +28,9 @@ A. REFERENCE SIDE — pure NumPy, float64/complex128, imports nothing from quant
    ref_loss(I_pred, I_meas, loss_type, num_total, mean_intensity) -> float   data-fidelity loss of a batch:
                                          sum |f(pred)-f(meas)|^p / (batch fraction) / mean pattern intensity
    partitions(J) -> [(batch_size, [index arrays])]   every contiguous partition of range(J), batch size 1..J
+   wrap_thicknesses(seq, container)      the sequence as list / tuple / ndarray / tensor / scalar
+   reorder_patterns(geo, perm)           copy of a Geometry with the patterns in another order (for data / positions fed to
+                                         the library in a permuted pattern order; simulate() then follows that order)
 
    Model: exit_j,m = T_{S-1} . P_{S-2}( ... T_1 . P_0( T_0 . shift(probe_m, frac_j) ) )
           I_j      = fftshift( sum_m |FFT_ortho(exit_j,m)|^2 )
@@ -95,6 +98,9 @@ CONFIG (all JSON-able; missing keys take the defaults in DEFAULTS):
    dose       total probe intensity = mean pattern intensity
    defocus, mode_defocus_step (Angstrom), aperture_frac (of the smaller Nyquist frequency)
    phase_sigma  rad, standard deviation of the object phase
+   thickness_container  "list" | "tuple" | "ndarray" | "tensor" | "scalar": the Python container in which the thickness
+              sequence is handed to ObjectPixelated.from_array (wrap_thicknesses(); set_object(..., container=) overrides)
+   probe_params_order   None | list of the keys "energy", "defocus", "semiangle_cutoff": insertion order of the probe_params dict
    mode_order None | permutation of range(modes): order in which build() installs the ground-truth modes (which are
               built strongest first, weights 1, 1/4, 1/9); probe_true keeps the strongest-first order
    tie        "even" | "up": which pixel the SIMULATOR takes as patch origin when a position is an exact half-pixel
@@ -135,6 +141,8 @@ DEFAULTS = {
     "learn_descan": False,
     "tie": "even",
     "mode_order": None,
+    "thickness_container": "list",
+    "probe_params_order": None,
 }
 STEP_KINDS = {"commensurate": (2.0, 2.0), "fractional": (1.3, 1.7)}
 OBJECT_PERTURBATIONS = ("kick", "ramp", "noise")
@@ -179,6 +187,42 @@ def normalise(cfg: dict) -> dict:
     else:
         c["step_px"] = [float(v) for v in c["step"]]
     return c
+
+
+THICKNESS_CONTAINERS = ("list", "tuple", "ndarray", "tensor", "scalar")
+
+
+def wrap_thicknesses(seq, container="list"):
+    """The thickness sequence `seq` (slice order) in the Python container the caller wants to hand to the library:
+    list | tuple | ndarray (float64) | tensor (float32) | scalar (only for a constant sequence)."""
+    vals = [float(v) for v in seq]
+    if container == "list":
+        return vals
+    if container == "tuple":
+        return tuple(vals)
+    if container == "ndarray":
+        return np.array(vals, dtype=float)
+    if container == "tensor":
+        import torch
+
+        return torch.tensor(vals, dtype=torch.float32)
+    if container == "scalar":
+        if len(set(vals)) != 1:
+            raise ValueError("a scalar thickness needs a constant sequence")
+        return vals[0]
+    raise ValueError(container)
+
+
+def reorder_patterns(geo: "Geometry", perm) -> "Geometry":
+    """A copy of `geo` whose patterns are visited in the order `perm` (pattern j of the copy = pattern perm[j])."""
+    perm = np.asarray(perm, dtype=int)
+    if sorted(perm.tolist()) != list(range(geo.num_patterns)):
+        raise ValueError("perm must be a permutation of the patterns")
+    g = Geometry(**vars(geo))
+    for k in ("positions_px", "origin", "frac", "rows", "cols", "patch_flat", "ties", "exact_ties"):
+        if hasattr(geo, k):
+            setattr(g, k, getattr(geo, k)[perm])
+    return g
 
 
 def _fft_order(n: int) -> np.ndarray:
@@ -394,7 +438,10 @@ class Problem(types.SimpleNamespace):
 
     def _probe_params(self):
         c = self.cfg
-        return {"energy": c["energy"], "defocus": c["defocus"], "semiangle_cutoff": 1e3 * self.lam * c["aperture_frac"] * min(0.5 / self.geo.sampling)}
+        d = {"energy": c["energy"], "defocus": c["defocus"], "semiangle_cutoff": 1e3 * self.lam * c["aperture_frac"] * min(0.5 / self.geo.sampling)}
+        if c.get("probe_params_order"):  # same content, keys inserted in another order
+            d = {k: d[k] for k in c["probe_params_order"]}
+        return d
 
     def set_probe_model(self, arr):
         """Attach a FRESH ProbePixelated (any number of modes) through the public `ptycho.probe_model` setter,
@@ -407,7 +454,7 @@ class Problem(types.SimpleNamespace):
         self.ptycho.preprocess(obj_padding_px=tuple(self.cfg["pad"]), plot_rotation=False, plot_com=False)
         self.set_probe(a)
 
-    def _new_obj_model(self, arr, thicknesses=None):
+    def _new_obj_model(self, arr, thicknesses=None, container=None):
         from quantem.diffractive_imaging.object_models import ObjectPixelated
 
         c = self.cfg
@@ -418,19 +465,20 @@ class Problem(types.SimpleNamespace):
         thicknesses = [float(v) for v in thicknesses]
         if len(thicknesses) != a.shape[0] - 1:
             raise ValueError("need one thickness per slice gap of the installed object")
+        container = container or c.get("thickness_container", "list")
         return ObjectPixelated.from_array(
             a,
             obj_type=c["obj_type"],
-            slice_thicknesses=(thicknesses if a.shape[0] > 1 else None),
+            slice_thicknesses=(wrap_thicknesses(thicknesses, container) if a.shape[0] > 1 else None),
             rng=self.seeds["object"],
         )
 
-    def set_object(self, arr, thicknesses=None):
+    def set_object(self, arr, thicknesses=None, container=None):
         """There is no public object setter: a fresh ObjectPixelated.from_array is attached and
         Ptychography.preprocess re-run (the dataset stays preprocessed; the probe is re-installed).
         `thicknesses` (default cfg["thicknesses"]) may differ from the build; the slice count is arr.shape[0]."""
         probe_now = self.probe_model.probe.detach().cpu().numpy()
-        self.obj_model = self._new_obj_model(arr, thicknesses)
+        self.obj_model = self._new_obj_model(arr, thicknesses, container)
         self.ptycho.obj_model = self.obj_model
         self.ptycho.preprocess(obj_padding_px=tuple(self.cfg["pad"]), plot_rotation=False, plot_com=False)
         self.set_probe(probe_now)
